@@ -31,6 +31,7 @@ type PScript struct {
 type ProcS struct {
 	Name   string
 	Signal string
+	Tracer string // tracer mode (see tracer_test.go)
 }
 
 // POp is one Consume call.
@@ -52,7 +53,7 @@ func genP(t *rapid.T) PScript {
 	var s PScript
 	np := rapid.IntRange(1, 3).Draw(t, "procs")
 	for i := 0; i < np; i++ {
-		s.Procs = append(s.Procs, ProcS{Name: fmt.Sprintf("p%d", i), Signal: rapid.SampledFrom(sig.Three).Draw(t, "signal")})
+		s.Procs = append(s.Procs, ProcS{Name: fmt.Sprintf("p%d", i), Signal: rapid.SampledFrom(sig.Three).Draw(t, "signal"), Tracer: genTracer(t)})
 	}
 	o := pgen.Structural()
 	o.MaxRes, o.MaxScope, o.MaxItems, o.MaxAttr, o.ValDepth = 2, 2, 4, 1, 1
@@ -130,13 +131,14 @@ func runP(s PScript) (nontrivial bool, k string, f *vt.Finding) {
 	k = hashKey(s)
 	tel := componenttest.NewTelemetry()
 	defer func() { _ = tel.Shutdown(context.Background()) }()
-	ctx := context.Background()
 	var cur *POp // the op being executed (calls are sequential)
 	var insts []procInst
 	for _, p := range s.Procs {
 		set := processortest.NewNopSettings(procType)
 		set.ID = component.NewIDWithName(procType, p.Name)
 		set.TelemetrySettings = tel.NewTelemetrySettings()
+		applyTracer(&set.TelemetrySettings, p.Tracer)
+		ctx := callerCtx(p.Tracer)
 		fwd := new([]int)
 		next := func(v any) error {
 			*fwd = append(*fwd, sig.Count(v))
@@ -250,6 +252,9 @@ func runP(s PScript) (nontrivial bool, k string, f *vt.Finding) {
 		cP.Class("kind:" + kd)
 	}
 	cP.Class(fmt.Sprintf("processors:%d", len(s.Procs)))
+	for _, p := range s.Procs {
+		cP.Class("tracer:" + p.Tracer)
+	}
 	return len(kinds) >= 2, k, nil
 }
 
